@@ -132,7 +132,7 @@ func main() {
 	close(nch)
 	wg.Wait()
 	// Block-level: RebuildMerkleRoot and the decoder's root check over real transactions.
-	txs := make([]*types.Transaction, 2600)
+	txs := make([]*types.Transaction, 2602)
 	for i := range txs {
 		txs[i] = mkTx(i)
 	}
@@ -159,6 +159,35 @@ func main() {
 			if blk.Transactions[i].Hash() != hashes[i] {
 				r.Violation("RebuildMerkleRoot:clobbered-tx-list", map[string]any{"n": n, "i": i})
 			}
+		}
+		// object lifetime: the root must not depend on how often it was computed before, nor on what the block held earlier
+		// (a cached hash list / reused workspace would show here): rebuild again, then replace transactions without changing
+		// their number, rebuild, and restore.
+		blk.RebuildMerkleRoot()
+		r.Eval()
+		if blk.Header.TransactionsRoot != want {
+			r.Violation("RebuildMerkleRoot:second-call-differs", map[string]any{"n": n, "got": blk.Header.TransactionsRoot.ToHexString(), "want": want.ToHexString()})
+		}
+		if n >= 1 && n+1 < len(txs) {
+			for _, pos := range []int{0, n / 2, n - 1} {
+				saved := blk.Transactions[pos]
+				cp := append([]*types.Transaction{}, blk.Transactions...)
+				cp[pos] = txs[n+1] // a transaction that is not in the block
+				blk.Transactions = cp
+				h2 := append([]common.Uint256{}, hashes...)
+				h2[pos] = txs[n+1].Hash()
+				blk.RebuildMerkleRoot()
+				r.Eval()
+				if blk.Header.TransactionsRoot != refRoot(h2) {
+					r.Violation("RebuildMerkleRoot:stale-after-replacing-a-transaction", map[string]any{"n": n, "replaced_index": pos})
+				}
+				cp[pos] = saved
+				blk.RebuildMerkleRoot()
+				if blk.Header.TransactionsRoot != want {
+					r.Violation("RebuildMerkleRoot:stale-after-restoring-a-transaction", map[string]any{"n": n, "replaced_index": pos})
+				}
+			}
+			blk.Transactions = txs[:n]
 		}
 		raw := blk.ToArray()
 		if _, err := types.BlockFromRawBytes(raw); err != nil {
